@@ -1,6 +1,7 @@
 mod util;
 mod remoteaddr;
 mod resid;
+mod decoder;
 
 fn main() {
     let args: Vec<String> = std::env::args().collect();
@@ -14,6 +15,7 @@ fn main() {
     match args[1].as_str() {
         "remoteaddr" => remoteaddr::run(&a),
         "resid" => resid::run(&a),
+        "decoder" => decoder::run(&a),
         other => {
             eprintln!("unknown core {}", other);
             std::process::exit(2);
